@@ -1238,3 +1238,14 @@ m('F14-engine-flatten-with-path-defaults-to-none-is-leaf', 'C03', 'F14', '_C.mod
              py::pos_only(),
              py::arg("leaf_predicate") = std::nullopt,
              py::arg("none_is_leaf") = true,""")
+m('B1-walk-keywords-listed-in-the-other-order', 'C05', 'B1', '_C.PyTreeSpec.walk/keywords', 'src/optree.cpp',
+  """             "and ``f_node(node_type, node_data, children)`` at non-leaf nodes.",
+             py::arg("leaves"),
+             py::pos_only(),
+             py::arg("f_node") = std::nullopt,
+             py::arg("f_leaf") = std::nullopt)""",
+  """             "and ``f_node(node_type, node_data, children)`` at non-leaf nodes.",
+             py::arg("leaves"),
+             py::pos_only(),
+             py::arg("f_leaf") = std::nullopt,
+             py::arg("f_node") = std::nullopt)""")
